@@ -243,3 +243,28 @@ pub fn set_mtime_atime(path: &Path, atime_ns: i128, mtime_ns: i128) -> io::Resul
     }
     Ok(())
 }
+
+/// Make fd 0 of this process a pipe that holds `marker` followed by end of file.
+pub fn stdin_marker(marker: &[u8]) {
+    unsafe {
+        let mut fds = [0i32; 2];
+        if libc::pipe(fds.as_mut_ptr()) != 0 {
+            return;
+        }
+        let _ = libc::write(fds[1], marker.as_ptr() as *const libc::c_void, marker.len());
+        libc::close(fds[1]);
+        libc::dup2(fds[0], 0);
+        libc::close(fds[0]);
+    }
+}
+
+/// fd 0 back to /dev/null.
+pub fn stdin_devnull() {
+    unsafe {
+        let fd = libc::open(b"/dev/null\0".as_ptr() as *const libc::c_char, libc::O_RDONLY);
+        if fd >= 0 {
+            libc::dup2(fd, 0);
+            libc::close(fd);
+        }
+    }
+}
